@@ -1483,7 +1483,16 @@ class Models:
         obj, name = pos
         nm = self.static_str(name)
         if nm is None:
-            raise Unsupported("hasattr with a symbolic name")
+            # symbolic name: getattr by ordinary lookup, AttributeError -> False
+            out = []
+            for r in self.dyn_getattr(eng, st, obj, name, None, fx):
+                if r.kind == "ok":
+                    out.append(Res("ok", r.st, vbool(z3.BoolVal(True))))
+                elif r.val.cls is not None and CLS.is_sub(r.val.cls, "AttributeError"):
+                    out.append(Res("ok", r.st, vbool(z3.BoolVal(False))))
+                else:
+                    out.append(r)
+            return out
         out = []
         for r in eng.getattr_(st, obj, nm, fx):
             if r.kind == "ok":
